@@ -867,6 +867,10 @@ def c08(ctx):
     f = schema_cases(ctx, "conforming", 1, "conf")
     args = ["schema", "-in", f, "-roundtrip"]
     ctx.absorb(ctx.vh_run(args, timeout=3000), args, label="schema/conforming")
+    # the same cases over a type system that is LOADED: each type is rendered as IPLD Schema DSL text and goes through the
+    # library's schema/dsl parser, schema/dmt and Compile instead of the schema.Spawn* calls
+    args = ["schema", "-in", f, "-roundtrip", "-dsl"]
+    ctx.absorb(ctx.vh_run(args, timeout=3000), args, label="schema/conforming-dsl")
     return ctx.finish(
         "model_checking",
         rule="cases = every inhabitant (up to the value bound) of each of 34 types of the catalogue: every representation "
@@ -876,6 +880,8 @@ def c08(ctx):
              "input, typed value, representation view); the harness builds the value through the type-level AND the "
              "representation-level builder of bindnode, reads both views of both nodes through every read form, then "
              "encodes the representation (dag-cbor, dag-json), decodes through the representation builder and re-encodes; "
+             "every case runs twice: over the type system spawned through the Go API, and over the one the library loads "
+             "from the type rendered as Schema DSL text (schema/dsl parser, schema/dmt, Compile); "
              "non-trivial = every case; distinct = distinct (type, value)",
         assumptions=["stringjoin field values and stringprefix member strings do not contain the delimiter (the representation "
                      "is not injective there by construction)", "generated code is compared under C13"],
@@ -888,6 +894,8 @@ def c09(ctx):
     f = schema_cases(ctx, "mutants", 29 if quick else 5, "mut")
     args = ["schema", "-in", f]
     ctx.absorb(ctx.vh_run(args, timeout=3000), args, label="schema/mutants")
+    args = ["schema", "-in", f, "-dsl"]    # the type system loaded from rendered DSL text
+    ctx.absorb(ctx.vh_run(args, timeout=3000), args, label="schema/mutants-dsl")
     # the second typed-node engine: code generated afresh from the working tree, same mutants
     fconf = schema_cases(ctx, "conforming", 1, "conf")
     genrun = gen_engine(ctx, fconf)
